@@ -27,6 +27,18 @@ type evalAnalysis struct {
 	before   map[*ssa.Function]map[ssa.Instruction]*evState
 	idxVals  map[*ssa.Function]map[string]ssa.Value // per function: index value names seen in operand paths
 	mayWrite map[*ssa.Function]bool
+	// whole-node hand-offs: a function passes the node it works on to another function of the interpreter, which goes on
+	// evaluating the same node's operands
+	handoffs  map[*ssa.Function][]*handoff
+	evalSet   map[*ssa.Function]map[string]bool   // role:path of node operands the function (or a function it hands the node to) may evaluate
+	inherited map[*ssa.Function]map[string]string // role:path already evaluated by some caller before it handed the node over -> where
+	must      map[*ssa.Function]map[string]bool   // the same, on every hand-off that reaches the function
+	second    bool
+}
+
+type handoff struct {
+	call   *ssa.Call
+	callee *ssa.Function
 }
 
 type evFlow struct {
@@ -146,6 +158,11 @@ func (f *evFlow) Instr(in ssa.Instruction, s *evState) *evState {
 			for _, c := range []string{"expr", "stmt", "operator"} {
 				s.cells[c] = map[string]bool{"?": true}
 			}
+			if f.a.second && f.a.isHandoff(f.fn, x) {
+				for k := range f.a.evalSet[callee] {
+					s.done[k] = true
+				}
+			}
 		}
 	}
 	return s
@@ -237,18 +254,153 @@ func buildEvalAnalysis(m *vmModel) *evalAnalysis {
 			}
 		}
 	}
-	for _, fn := range fns {
-		fl := &evFlow{a: a, fn: fn, base: m.baseOf(fn), rec: map[*ssa.Call]*evalEvent{}}
-		before, _ := runForward[*evState](fn, fl)
-		a.before[fn] = before
-		var evs []*evalEvent
-		for _, e := range fl.rec {
-			evs = append(evs, e)
+	pass := func() {
+		for _, fn := range fns {
+			fl := &evFlow{a: a, fn: fn, base: m.baseOf(fn), rec: map[*ssa.Call]*evalEvent{}}
+			before, _ := runForward[*evState](fn, fl)
+			a.before[fn] = before
+			var evs []*evalEvent
+			for _, e := range fl.rec {
+				evs = append(evs, e)
+			}
+			sort.Slice(evs, func(i, j int) bool { return evs[i].call.Pos() < evs[j].call.Pos() })
+			a.events[fn] = evs
 		}
-		sort.Slice(evs, func(i, j int) bool { return evs[i].call.Pos() < evs[j].call.Pos() })
-		a.events[fn] = evs
+	}
+	pass()
+	// hand-offs of the whole node, and what the receiving function evaluates of it
+	a.handoffs = map[*ssa.Function][]*handoff{}
+	a.evalSet = map[*ssa.Function]map[string]bool{}
+	a.inherited = map[*ssa.Function]map[string]string{}
+	onRecord := map[*ssa.Function]bool{}
+	for _, fn := range fns {
+		onRecord[fn] = true
+	}
+	for _, fn := range fns {
+		a.evalSet[fn] = map[string]bool{}
+		a.inherited[fn] = map[string]string{}
+		for _, e := range a.events[fn] {
+			for _, o := range e.operands {
+				if nodeOperand(o) {
+					a.evalSet[fn][e.role+":"+o] = true
+				}
+			}
+		}
+		base := m.baseOf(fn)
+		for _, b := range fn.Blocks {
+			for _, in := range b.Instrs {
+				c, ok := in.(*ssa.Call)
+				if !ok || m.evalRole(c, base) != "" {
+					continue
+				}
+				callee := m.calleeOnBase(c, base)
+				if callee == nil || !onRecord[callee] || callee == fn {
+					continue
+				}
+				for i, arg := range c.Call.Args {
+					if i >= len(callee.Params) || m.nm.nodeKind(callee.Params[i].Type()) == "" {
+						continue
+					}
+					if m.opPath(arg, 0) == "node" {
+						a.handoffs[fn] = append(a.handoffs[fn], &handoff{c, callee})
+						break
+					}
+				}
+			}
+		}
+	}
+	for changed := true; changed; {
+		changed = false
+		for _, fn := range fns {
+			for _, h := range a.handoffs[fn] {
+				for k := range a.evalSet[h.callee] {
+					if !a.evalSet[fn][k] {
+						a.evalSet[fn][k] = true
+						changed = true
+					}
+				}
+			}
+		}
+	}
+	a.second = true
+	pass()
+	for changed := true; changed; {
+		changed = false
+		for _, fn := range fns {
+			for _, h := range a.handoffs[fn] {
+				st := a.before[fn][h.call]
+				if st == nil {
+					continue
+				}
+				inh := a.inherited[h.callee]
+				for k := range st.done {
+					if nodeOperand(k[strings.Index(k, ":")+1:]) && inh[k] == "" {
+						inh[k] = funcName(fn)
+						changed = true
+					}
+				}
+				for k, w := range a.inherited[fn] {
+					if inh[k] == "" {
+						inh[k] = w
+						changed = true
+					}
+				}
+			}
+		}
+	}
+	// must-inherited: greatest fixpoint of the intersection over all hand-off sites
+	a.must = map[*ssa.Function]map[string]bool{}
+	sites := map[*ssa.Function][]struct {
+		from *ssa.Function
+		h    *handoff
+	}{}
+	for _, fn := range fns {
+		for _, h := range a.handoffs[fn] {
+			sites[h.callee] = append(sites[h.callee], struct {
+				from *ssa.Function
+				h    *handoff
+			}{fn, h})
+		}
+	}
+	for _, fn := range fns {
+		a.must[fn] = map[string]bool{}
+		if len(sites[fn]) > 0 {
+			for k := range a.inherited[fn] {
+				a.must[fn][k] = true
+			}
+		}
+	}
+	for changed := true; changed; {
+		changed = false
+		for _, fn := range fns {
+			for k := range a.must[fn] {
+				for _, s := range sites[fn] {
+					st := a.before[s.from][s.h.call]
+					if st == nil || !(st.done[k] || a.must[s.from][k]) {
+						delete(a.must[fn], k)
+						changed = true
+						break
+					}
+				}
+			}
+		}
 	}
 	return a
+}
+
+// nodeOperand: the path names an operand field of the function's own node, with no list index (index names are local to a
+// function and cannot be compared across a call).
+func nodeOperand(path string) bool {
+	return strings.HasPrefix(path, "node.") && !strings.Contains(path, "[") && !strings.Contains(path, "?")
+}
+
+func (a *evalAnalysis) isHandoff(fn *ssa.Function, c *ssa.Call) bool {
+	for _, h := range a.handoffs[fn] {
+		if h.call == c {
+			return true
+		}
+	}
+	return false
 }
 
 func (a *evalAnalysis) idx(fn *ssa.Function) map[string]ssa.Value {
